@@ -35,6 +35,16 @@ EDITS = [
     ('C02', 'boltons/cacheutils.py', "                self.miss_count += 1\n                if not self.on_miss:\n                    raise\n                ret = self[key] = self.on_miss(key)\n                return ret\n\n            self.hit_count += 1\n            return link[VALUE]",
      "                self.miss_count += 1\n                if not self.on_miss:\n                    raise\n                ret = self.on_miss(key)\n                self[key] = ret\n                return ret\n\n            self.hit_count += 1\n            return link[VALUE]", 1,
      'LRI.__getitem__: chained assignment split'),
+    ('C12', 'boltons/socketutils.py', "        with self._send_lock:\n            self.sbuf.append(data)\n        return",
+     "        with self._send_lock:\n            self.sbuf = self.sbuf + [data]\n        return", 1, 'buffer(): a new list object instead of append'),
+    ('C17', 'boltons/dictutils.py', "        if key not in self.data:\n            self.data[key] = set()\n        self.data[key].add(val)",
+     "        self.data.setdefault(key, set()).add(val)", 1, 'ManyToMany.add: setdefault instead of membership test'),
+    ('C11', 'boltons/setutils.py', "        int_idx = bisect_left(dints, cand_int)\n        dint = dints[int_idx - 1]\n        d_start, d_stop = dint",
+     "        int_idx = bisect_left(dints, cand_int)\n        dint = dints[int_idx - 1]\n        d_start = dint[0]\n        d_stop = dint[1]", 1,
+     '_add_dead: tuple unpacking split'),
+    ('C18', 'boltons/ioutils.py', "            got = len(parts[-1])\n            if got < amt:\n                self._index += 1\n            amt -= got",
+     "            got = len(parts[-1])\n            amt -= got\n            if amt > 0:\n                self._index += 1", 1,
+     'MultiFileReader.read: remaining amount computed first'),
 ]
 
 
